@@ -156,7 +156,7 @@ def generate(ctx, known):
         # (b) one behaviour per distinct abstract state, 2 threads
         if thorough or fam == "ideal":
             shape = (2, 3, 1, 1, 4) if thorough else (2, 3, 1, 1, 3)
-            fl, fo = ([0, 1, 3, 255], ["valid", "zero", "nospan"]) if thorough else ([0, 1, 255], ["valid", "zero", "nospan"])
+            fl, fo = [0, 1, 255], ["valid", "zero", "nospan"]
             c = _cfg(ctx, "g2-%s.cfg" % fam, shape, ALL_S, fl, fo, dev=dev, hist=True, view="ViewState", invs="EmitAll",
                      props="")
             jobs.append((fam, "state-cover", c, None))
@@ -409,7 +409,7 @@ def run(ctx):
     probs, summ = replay_behs(ctx, exe, behs, "counter", "counter")
     t1 = classify(ctx, behs, probs, "counter")
     nornd = [b for b in behs if not any(s.get("s") == "rmid" for s in b["steps"])]
-    k = 3 if ctx.tier == "quick" else 2     # the random generator replays a sample of the two big covers
+    k = 3 if ctx.tier == "quick" else 4     # the random generator replays a sample of the two big covers
     nornd = [b for b in nornd if b["src"] not in ("all-depth2", "state-cover") or b["id"] % k == ctx.seed % k]
     probs2, summ2 = replay_behs(ctx, exe, nornd, "random", "random")
     t2 = classify(ctx, nornd, probs2, "random")
